@@ -41,6 +41,9 @@ def canonical(u, w):
     return bytes(w)
 
 
+_UNP = None
+
+
 def schema_reports(pic_text, usage_name):
     """maxLength, minLength, location size, record end, Struct.calcsize, TextUnpacker.calcsize"""
     from stingray.cobol_parser import schema_iter
@@ -59,7 +62,12 @@ def schema_reports(pic_text, usage_name):
     js, schema = state["js"], state["schema"]
     fld = js["properties"]["FLD"]
     out = [rep(lambda: fld["maxLength"]), rep(lambda: fld["minLength"])]
-    unp = EBCDIC()
+    # ONE long-lived unpacker for the whole run (as a long-lived workbook has): per-unpacker caches that
+    # outlive a schema show up as widths of unrelated fields
+    global _UNP
+    if _UNP is None:
+        _UNP = EBCDIC()
+    unp = _UNP
     def loc():
         state["loc"] = LocationMaker(unp, schema).from_schema()
         return state["loc"].properties["FLD"].size
